@@ -102,6 +102,23 @@ func c11Gen(r *rand.Rand, tier string) []spec.Case {
 		}
 		out = append(out, spec.Case{Kind: proto + "-small", P: spec.MustJSON(c)})
 	}
+	// (gRPC kinds) one stream's sync writer refuses or half-accepts every third write: what it refuses is
+	// lost to that writer and must never reach the other stream's writer; the other stream stays exact
+	nfl := 12
+	if tier == "thorough" {
+		nfl = 240
+	}
+	for i := 0; i < nfl; i++ {
+		proto := []string{"grpc", "grpcmux"}[i%2]
+		seed := int64(r.Intn(1 << 20))
+		c := spec.C11Case{Proto: proto, ViaRPC: i%4 < 2, FlakyWriter: []string{"err:e", "short:e", "err:o", "short:o"}[(i/2)%4]}
+		c.Main.Seed, c.Pre.Seed = seed, seed
+		nf := 12 + r.Intn(30)
+		for j := 0; j < nf; j++ {
+			c.Main.Frames = append(c.Main.Frames, spec.C11Frame{Stream: []string{"o", "e"}[j%2], Len: pick(r, []int{r.Intn(200), r.Intn(200), 1015, 3000}), GapUs: pick(r, []int{0, 300, 3000})})
+		}
+		out = append(out, spec.Case{Kind: proto + "-flaky-writer", P: spec.MustJSON(c)})
+	}
 	return out
 }
 
@@ -126,6 +143,9 @@ func c11Judge(c spec.Case, evs []spec.Event, d *Death) CaseResult {
 		}
 	}
 	res.Class = fmt.Sprintf("%s pre=%v traffic=%v rpc=%v frames=%s max=%s", p.Proto, len(p.Pre.Frames) > 0, p.Traffic, p.ViaRPC, sizeBucket(len(p.Main.Frames)), sizeClass(maxLen, 0))
+	if p.FlakyWriter != "" {
+		res.Class += " flakyWriter=" + p.FlakyWriter
+	}
 	res.Sample = map[string]any{"proto": p.Proto, "pre_frames": len(p.Pre.Frames), "main_frames": len(p.Main.Frames), "client_delay_ms": p.ClientDelayMs, "stdout": o.Out, "stderr": o.Err, "snapshots": o.Snapshots, "wait_ms": o.WaitMs}
 	res.Counters["bytes_stdout"] += int(o.Out.Received)
 	res.Counters["bytes_stderr"] += int(o.Err.Received)
@@ -141,6 +161,17 @@ func c11Judge(c spec.Case, evs []spec.Event, d *Death) CaseResult {
 		name string
 		s    spec.C11Stream
 	}{{"stdout", o.Out}, {"stderr", o.Err}} {
+		if st.s.Flaky {
+			// the stream whose writer refuses some writes: only "nothing foreign, nothing out of order"
+			res.Counters["writes_refused_by_sync_writer"] += st.s.Refusals
+			if st.s.NotSubseq {
+				viol("foreign-bytes:"+st.name, fmt.Sprintf("%s (its sync writer refuses every third write): what the writer accepted cannot be obtained from what the plugin wrote by leaving bytes out", st.name))
+			}
+			if st.s.Refusals == 0 {
+				return CaseResult{Verdict: "inconclusive", Inconcl: "the flaky writer never refused a write", Class: res.Class}
+			}
+			continue
+		}
 		if !st.s.IsPrefix {
 			k := "corrupt"
 			switch {
@@ -173,7 +204,7 @@ func init() {
 				r.Inconcl = append(r.Inconcl, "nothing received")
 			}
 		},
-		Rule:        "a case = a write plan for a real serving plugin (net/rpc, gRPC, gRPC+mux): 1-40 frames over the two streams from two goroutines, sizes around the 1 KiB chunk / 4 KiB buffer boundaries (0,1,1023..1025,2047..2049,4095..4097,8192,64 KiB, occasionally 1 MiB) and random, optional inter-write gaps, optionally concurrent RPC traffic, issued over the side channel or over the plugin RPC; two thirds of the cases also write frames the moment serving starts, before the host calls Client() (host delay 0-500 ms), some with more than pipe+buffer capacity. Frames are self-describing ([stream tag][seq][len][PRNG payload]); the host regenerates the expected stream, checks every 20 ms that what arrived is a prefix of it and, after the plugin acknowledged its last write, that everything arrives within 15 s. Class = (protocol, pre-attach data, traffic, command path, #frames bucket, max frame size class)",
+		Rule:        "a case = a write plan for a real serving plugin (net/rpc, gRPC, gRPC+mux): 1-40 frames over the two streams from two goroutines, sizes around the 1 KiB chunk / 4 KiB buffer boundaries (0,1,1023..1025,2047..2049,4095..4097,8192,64 KiB, occasionally 1 MiB) and random, optional inter-write gaps, optionally concurrent RPC traffic, issued over the side channel or over the plugin RPC; two thirds of the cases also write frames the moment serving starts, before the host calls Client() (host delay 0-500 ms), some with more than pipe+buffer capacity. Frames are self-describing ([stream tag][seq][len][PRNG payload]); the host regenerates the expected stream, checks every 20 ms that what arrived is a prefix of it and, after the plugin acknowledged its last write, that everything arrives within 15 s. For gRPC kinds a further group of cases gives one stream a sync writer that refuses, or takes only half of, every third Write: the other stream must stay byte-exact and what the flaky writer accepted must be obtainable from its own stream by leaving bytes out. Class = (protocol, pre-attach data, traffic, command path, #frames bucket, max frame size class)",
 		Assumptions: []string{"loss is judged as bounded progress: 15 s after the acknowledged last write with the connection still answering Ping", "each frame is issued as one Write call on os.Stdout/os.Stderr of the plugin"},
 	})
 }
